@@ -29,6 +29,18 @@ ALPHA = {
     "protein": "ACDEFGHIKLMNPQRSTVWY" + "-----" + "BXZ?",
     "text": "ABCD" * 2 + "---",
 }
+# row names (the same table as in c03_impl.py): several are proper substrings / prefixes of one another
+NAMES = ["Mouse", "Mouse_2", "Mo", "use_2", "Mouse_2b"]
+
+
+def name_of(i):
+    return NAMES[i] if 0 <= i < len(NAMES) else f"s{i}"
+
+
+def id_of(name):
+    return NAMES.index(name) if name in NAMES else int(name[1:])
+
+
 FLAG_NAMES = ["imap-slice-clamps", "imap-add-merges-gaps", "aligned-add-no-shortcut", "take_positions-negate-joins",
               "aligned-int-negative-index"]
 
@@ -91,9 +103,18 @@ def oracle_step(st: OState, op):
     if o == "addself":
         return st.maprows(lambda s: s + s)
     if o == "addrows":
-        if len(op["rows"]) != len(st.rows):
+        other = [(i, r) for i, r in op["other"]]
+        d = dict(other)
+        if len(other) != len(st.rows) or len(d) != len(other) or any(i not in d for i, _ in st.rows) \
+                or len({len(r) for _, r in other}) > 1:
+            return SILENT    # counts / names differ, ragged right operand: ValueError by design
+        return st.with_rows([(i, s + d[i]) for i, s in st.rows])     # rows paired by NAME
+    if o == "rename":
+        m = {a: b for a, b in op["map"]}
+        new = [m.get(i, i) for i, _ in st.rows]
+        if len(set(new)) != len(new):
             return SILENT
-        return st.with_rows([(i, s + t) for (i, s), t in zip(st.rows, op["rows"])])
+        return st.with_rows([(m.get(i, i), s) for i, s in st.rows])
     if o == "addslices":
         if not st.arr and any(x < -L for x in (op["a"], op["b"], op["c"], op["d"])):
             return SILENT
@@ -160,14 +181,20 @@ def oracle_step(st: OState, op):
 
 
 def oracle_ro(st: OState):
-    """read-only methods as functions of the strings: names, len, columns, gap array, gaps per column, is_ragged"""
+    """read-only methods as functions of the named strings"""
     rows = [s for _, s in st.rows]
     L = st.L
+    canon = NON_DEGEN.get(st.moltype, "")
     return [[i for i, _ in st.rows], L, ["".join(s[j] for s in rows) for j in range(L)],
-            [[c in "-?" for c in s] for s in rows], [sum(1 for s in rows if s[j] in "-?") for j in range(L)], False]
+            [[c in "-?" for c in s] for s in rows], [sum(1 for s in rows if s[j] in "-?") for j in range(L)], False,
+            [sum(1 for c in s if c in "-?") for s in rows],
+            [j for j in range(L) if len({s[j] for s in rows}) > 1],
+            [[i, sum(1 for c in s if c in canon)] for i, s in st.rows],
+            [s if st.arr else s.replace("-", "") for s in rows]]
 
 
-RO_NAMES = ["names", "len", "positions", "get_gap_array", "count_gaps_per_pos", "is_ragged"]
+RO_NAMES = ["names", "len", "positions", "get_gap_array", "count_gaps_per_pos", "is_ragged", "count_gaps_per_seq",
+            "variable_positions", "get_lengths", "get_seq"]
 
 
 def oracle_degap(st: OState):
@@ -193,13 +220,17 @@ def coq_op(op, moltype):
     if o == "addself":
         return "OAddSelf"
     if o == "addrows":
-        return "OAddRows [" + ";".join(zstr(s) for s in op["rows"]) + "]"
+        return "OAddRows [" + ";".join(f"({zstr(name_of(i))},{zstr(r)})" for i, r in op["other"]) + "]"
+    if o == "rename":
+        return "ORename [" + ";".join(f"({zstr(name_of(a))},{zstr(name_of(b))})" for a, b in op["map"]) + "]"
     if o == "addslices":
         return f"OAddSlices {zlit(op['a'])} {zlit(op['b'])} {zlit(op['c'])} {zlit(op['d'])}"
     if o == "takepos":
         return f"OTakePos {zl(op['cols'])} {cbool(op['negate'])}"
     if o == "takeseqs":
-        return f"OTakeSeqs {zl(op['names'])} {cbool(op['negate'])}"
+        names = [zstr(name_of(i)) for i in op["names"]]
+        arg = f"(NStr {names[0]})" if op.get("as_str") and len(names) == 1 else "(NList [" + ";".join(names) + "])"
+        return f"OTakeSeqs {arg} {cbool(op['negate'])}"
     if o == "no_degen":
         chars = NON_DEGEN.get(moltype, "") + ("-" if op["allow_gap"] else "")
         return f"OFilter (PAllowed {zstr(chars)}) {zlit(op['motif'])}"
@@ -209,7 +240,7 @@ def coq_op(op, moltype):
         num, den = (999999, 1000000) if op.get("default") else (op["num"], op["den"])
         return f"OFilter (PGapFrac {zstr(GAPS.get(moltype, '-?'))} {zlit(num)} {zlit(den)}) {zlit(op['motif'])}"
     if o == "degaprel":
-        return f"ODegapRel {zlit(op['name'])}"
+        return f"ODegapRel {zstr(name_of(op['name']))}"
     if o == "sample":
         return f"OSample {zl(op['locs'])} {zlit(op['motif'])}"
     if o == "to_rna":
@@ -225,7 +256,7 @@ def coq_op(op, moltype):
 
 def coq_case(c, flags):
     fl = "[" + ";".join(cbool(f) for f in flags) + "]"
-    rows = "[" + ";".join(f"({i},{zstr(s)})" for i, s in c["rows"]) + "]"
+    rows = "[" + ";".join(f"({zstr(name_of(i))},{zstr(s)})" for i, s in c["rows"]) + "]"
     # the moltype constants an operation is given are those of the alignment it is applied to
     mt, rendered = c["moltype"], []
     for o in c["ops"]:
@@ -290,7 +321,7 @@ def rand_op(rng, st: OState, wild=False):
     L, mt = st.L, st.moltype
     names = [i for i, _ in st.rows]
     kinds = ["slice"] * 5 + ["index", "rc", "rc", "addself", "addrows", "addslices", "takepos", "takepos", "takepos_neg",
-                              "takeseqs", "no_degen", "omit_gap", "omit_gap", "filtered", "degaprel", "sample", "to_rna",
+                              "takeseqs", "takeseqs", "rename", "no_degen", "omit_gap", "omit_gap", "filtered", "degaprel", "sample", "to_rna",
                               "to_dna", "to_type", "to_type", "window", "slicestep"]
     k = rng.choice(kinds)
     if k == "slice":
@@ -305,9 +336,20 @@ def rand_op(rng, st: OState, wild=False):
         return dict(op="addself")
     if k == "addrows":
         n = rng.randint(0, 4)
-        perm = list(range(len(st.rows)))
-        rng.shuffle(perm)     # the right operand lists the same names in another order
-        return dict(op="addrows", rows=[rand_string(rng, ALPHA[mt], n) for _ in st.rows], perm=perm)
+        other = [[i, rand_string(rng, ALPHA[mt], n)] for i in names]
+        rng.shuffle(other)     # the right operand lists the same names in its own order
+        r = rng.random()
+        if wild and r < 0.3 and len(other) > 1:
+            other = other[:-1]                                  # a name missing, counts differ
+        elif wild and r < 0.6:
+            other[0][0] = max(names) + 1                        # same count, one name differs
+        return dict(op="addrows", other=other)
+    if k == "rename":
+        sub = rng.sample(names, rng.randint(1, len(names)))
+        # the renamer is injective on the names present (two rows under one name would collapse in the dict)
+        pool = [x for x in range(8) if x not in names or x in sub]
+        targets = rng.sample(pool, len(sub))
+        return dict(op="rename", map=[[i, t] for i, t in zip(sub, targets)])
     if k == "addslices":
         return dict(op="addslices", a=rng.randint(0, L), b=rng.randint(0, L + 1), c=rng.randint(0, L), d=rng.randint(0, L + 1))
     if k in ("takepos", "takepos_neg"):
@@ -370,7 +412,7 @@ def random_case(rng, flags, maxlen=12):
                     # the right operand is written in the alphabet of the alignment's moltype at this step
                     # (the constructor would silently coerce T/U otherwise, which is its documented behaviour)
                     a, b = ("T", "U") if st.moltype == "rna" else ("U", "T")
-                    op["rows"] = [r.replace(a, b) for r in op["rows"]]
+                    op["other"] = [[i, r.replace(a, b)] for i, r in op["other"]]
                 if oracle_step(st, op) is SILENT:
                     continue
             else:
@@ -412,9 +454,13 @@ def single_ops(L, nrows, arr, mt, tier):
     for a, b, c, d in [(0, L // 2, L // 2, L), (0, L, 0, L), (1, L, 0, 1), (0, 1, 1, 2), (L // 2, L, 0, L // 2)]:
         ops.append(dict(op="addslices", a=a, b=b, c=c, d=d))
     distinct = ["-A", "C-", "AC"][:nrows]
-    ops.append(dict(op="addrows", rows=distinct, perm=list(range(nrows))))
-    ops.append(dict(op="addrows", rows=distinct, perm=list(reversed(range(nrows)))))
-    ops.append(dict(op="addrows", rows=["-"] * nrows, perm=list(reversed(range(nrows)))))
+    ops.append(dict(op="addrows", other=[[i, distinct[i]] for i in range(nrows)]))
+    ops.append(dict(op="addrows", other=[[i, distinct[i]] for i in reversed(range(nrows))]))
+    ops.append(dict(op="addrows", other=[[i, "-"] for i in reversed(range(nrows))]))
+    ops.append(dict(op="addrows", other=[[i + 1, distinct[i]] for i in range(nrows)]))      # a name the left operand lacks
+    ops.append(dict(op="rename", map=[[0, 4]]))
+    if nrows > 1:
+        ops.append(dict(op="rename", map=[[0, 1], [1, 0]]))
     cols_sets = [[i] for i in range(-L, L)] + [[i, j] for i in range(L) for j in range(L)] + [[]]
     if L >= 3:
         cols_sets.append([2, 0, 2])
@@ -578,7 +624,7 @@ def shape_of(op, st: OState):
     if o == "takeseqs":
         return ("negate" if op["negate"] else "select") + ("-str" if op.get("as_str") else "")
     if o == "addrows":
-        return "permuted-names" if op.get("perm") and list(op["perm"]) != sorted(op["perm"]) else "same-order"
+        return "same-order" if [i for i, _ in op["other"]] == [i for i, _ in st.rows] else "other-order"
     if o in ("no_degen", "omit_gap", "filtered", "sample"):
         return f"motif{min(op['motif'], 2)}"
     return ""
@@ -588,6 +634,19 @@ def key_of(c, op, st, what):
     cls = "new" if c.get("new_collection") else ("arr" if st.arr else "old")
     sh = shape_of(op, st) if not c.get("new_collection") else ""
     return f"{cls}:{op['op']}" + (f":{sh}" if sh else "") + (f":{what}" if what else "")
+
+
+def model_ids(x, kind):
+    """names in the model's output are strings: back to the ids the implementation side reports"""
+    if x is None or isinstance(x, Exc):
+        return x
+    if kind == "obs":
+        return [x[0], x[1], [[id_of(r[0])] + list(r[1:]) for r in x[2]]]
+    if kind == "degap":
+        return [[id_of(r[0]), r[1]] for r in x]
+    if kind == "ro":
+        return [[id_of(n) for n in x[0]]] + list(x[1:8]) + [[[id_of(p[0]), p[1]] for p in x[8]]] + list(x[9:])
+    raise ValueError(kind)
 
 
 def impl_step_obs(s):
@@ -604,6 +663,11 @@ def check_case(rep, c, ir, mr, stats, disagreements):
         return
     st = OState(c["moltype"], c["arr"], c["rows"])
     m_first, m_steps, m_degap, m_ro = (mr if isinstance(mr, list) and len(mr) == 4 else (None, [None] * len(c["ops"]), None, None))
+    if mr is not None and isinstance(mr, list) and len(mr) == 4:
+        m_first = model_ids(m_first, "obs")
+        m_steps = [model_ids(x, "obs") for x in m_steps]
+        m_degap = model_ids(m_degap, "degap")
+        m_ro = model_ids(m_ro, "ro")
     first = ir["first"]
     o_rows = [[i, s] for i, s in st.rows]
     if [r[:2] for r in first["obs"][2]] != o_rows or first["obs"][1] != st.L:
@@ -784,7 +848,7 @@ def run(tier: str, seed: int) -> int:
             rep.violation("tables:" + mt, dict(broken="moltype constants differ from the ones given to the model", observed_impl=t),
                           no_input=True)
     proof_broken = bool(pr["problems"])
-    nrand = (500 if tier == "quick" else 12000) * (3 if proof_broken else 1)
+    nrand = (400 if tier == "quick" else 12000) * (3 if proof_broken else 1)
     cases = corpus(flags) + exhaustive_block(tier, flags) + [random_case(rng, flags) for _ in range(nrand)]
     newc = new_collection_cases(rng, 60 if tier == "quick" else 1500)
     subc = sub_alignment_cases(rng, 60 if tier == "quick" else 1500)
